@@ -67,6 +67,16 @@ class Mono:
 ONE = Mono()
 
 
+def strip_aug(m: "Mono") -> "Mono":
+    """A random augmentation transform moves content but keeps pixel units: frames are compared modulo it
+    wherever only the UNIT matters (cutting a crop, shifting by a box corner)."""
+    return Mono({k: v for k, v in m.e.items() if not k.startswith("aug@")})
+
+
+def strip_offs(offs):
+    return frozenset((l, strip_aug(m)) for l, m in offs)
+
+
 class V:
     """Base of abstract values."""
 
@@ -238,6 +248,14 @@ def join(a: Optional[V], b: Optional[V], why: str = "join") -> Optional[V]:
             if x not in uniq:
                 uniq.append(x)
         return Mismatch(tuple(uniq), why)
+    if isinstance(a, Geo) and isinstance(b, Geo) and a.kind == b.kind and a.label == b.label:
+        # an optional augmentation (applied on one path only): the identity is one of its samples
+        r = a.mono / b.mono
+        if r.e and all(k.startswith("aug@") for k in r.e) and strip_offs(a.offs) == strip_offs(b.offs):
+            if all(v > 0 for v in r.e.values()):
+                return a
+            if all(v < 0 for v in r.e.values()):
+                return b
     if isinstance(a, (Geo, Num, Cms)) or isinstance(b, (Geo, Num, Cms)):
         if isinstance(a, (Other, Const)) and not isinstance(b, (Other, Const)):
             # a geometric value joined with a non-geometric one (e.g. None / NaN placeholder)
